@@ -382,12 +382,101 @@ def plan(tier, seed, build, scale):
     while a < n:
         units.append({"cases": [a, min(n, a + per)]})
         a += per
+    units.append({"mode": "midstep", "cases": [0, 1]})
     return units
+
+
+def run_midstep_guard(res, c, progress):
+    """The task a generator handed out has STARTED and is suspended at a later await of its step (not computed yet):
+    another task that tries to advance the generator at that moment gets RuntimeError, every time, and the body is not
+    touched."""
+    import asynq
+    from asynq import asynq as A
+    from asynq.batching import DebugBatchItem, _debug_batch_state
+    from asynq.generator import END_OF_GENERATOR, Value, async_generator
+
+    for awaits, rounds, with_value_first in itertools.product((2, 3, 5), (1, 2, 4), (False, True)):
+        progress(awaits)
+        asynq.scheduler.reset()
+        _debug_batch_state.batches.clear()
+        seen = []
+        attempts = []
+
+        @async_generator()
+        def gen():
+            if with_value_first:
+                yield Value("first")
+            for k in range(awaits):
+                got = yield DebugBatchItem("c17g", ("a", k))
+                seen.append(got)
+            yield Value("after-%d-awaits" % awaits)
+            yield Value("last")
+
+        g = gen()
+        if with_value_first:
+            first = next(g)
+            first.value()
+        t = next(g)
+
+        @A()
+        def sibling():
+            for r in range(rounds):
+                yield DebugBatchItem("c17g", ("s", r))
+                if t.is_computed():
+                    break
+                try:
+                    next(g)
+                    attempts.append("advanced")
+                except RuntimeError:
+                    attempts.append("RuntimeError")
+                except BaseException as e:
+                    attempts.append(type(e).__name__)
+
+        @A()
+        def driver():
+            yield t, sibling.asynq()
+            return t.value()
+
+        try:
+            out = ("val", driver())
+        except BaseException as e:
+            out = ("exc", exc_desc(e))
+        rest = []
+        try:
+            for tk in g:
+                v = tk.value()
+                if v is not END_OF_GENERATOR:
+                    rest.append(v)
+        except BaseException as e:
+            rest.append(("raised", exc_desc(e)))
+        res["evaluations"] += 1
+        c["advances_attempted_while_the_handed_out_task_was_suspended_mid_step"] = c.get("advances_attempted_while_the_handed_out_task_was_suspended_mid_step", 0) + len(attempts)
+        want_seen = [("a", k) for k in range(awaits)]
+        problem = None
+        if any(a_ != "RuntimeError" for a_ in attempts):
+            problem = {"attempts": attempts}
+        elif out != ("val", "after-%d-awaits" % awaits) or rest != ["last"] or seen != want_seen:
+            problem = {"step_task": repr(out)[:120], "remaining_values": repr(rest)[:120], "body_received": repr(seen)[:160], "expected_received": repr(want_seen)}
+        if problem and len(res["violations"]) < 6:
+            res["violations"].append(
+                {
+                    "oracle": "advance-before-previous-task-computed-did-not-raise",
+                    "mechanism": "advance-before-previous-task-computed-did-not-raise/mid-step",
+                    "detail": dict(problem, awaits_in_the_step=awaits, sibling_rounds=rounds, value_before_the_step=with_value_first),
+                    "case": {"mode": "midstep", "cases": [0, 1]},
+                }
+            )
+        res["nontrivial"].append(hash(("midstep", awaits, rounds, with_value_first)) & 0xFFFFFFFFFFFF)
+    asynq.scheduler.reset()
+    _debug_batch_state.batches.clear()
+    return res
 
 
 def run_unit(unit, progress):
     res = tl.new_result()
     c = res["counters"]
+    if unit.get("mode") == "midstep":
+        return run_midstep_guard(res, c, progress)
     a, b = unit["cases"]
     for i in range(a, b):
         progress(i)
